@@ -22,6 +22,7 @@
 -/
 import AriadneModel.Model.Package
 import AriadneModel.Model.PackageTriggers
+import AriadneModel.Model.PackageValid
 
 namespace Ariadne.Spec.PyScope
 open Ariadne Ariadne.Package Ariadne.PackageTriggers
@@ -94,18 +95,26 @@ def WellScoped (p : PackageIR) : Prop := wellScopedB p = true
 
 instance (p : PackageIR) : Decidable (WellScoped p) := by unfold WellScoped; infer_instance
 
-/-- the parts of `moduleOK` that are NOT yet proved from the generators' models for every input (they are the
-    explicit `Proved_04` conjunct of the partial theorem, evaluated by the driver on every case): the surviving
-    relative imports resolve, every name a class statement / method signature evaluates is bound earlier, forward
-    references name something of the module, every `model_rebuild()` call names a class of the module -/
+/-- the parts of `moduleOK` that are not finding triggers and not `allOK`: the surviving relative imports resolve,
+    every name a class statement / method signature evaluates is bound earlier, forward references name something of the
+    module, every `model_rebuild()` call names a class of the module.  Proved module kind by module kind in
+    Properties/C04.lean (`enums_module_wellscoped` … `init_module_wellscoped`). -/
 def residualParts (p : PackageIR) (m : ModuleIR) : Bool :=
   importsResolve p m && classesLoad m && forwardRefsOK m && m.rebuilds.all (m.classes.map (·.name)).contains
 
-/-- `Proved_04` as a Bool: the model's own run on this input ends in a package whose generated modules pass
-    `residualParts`, or in a documented refusal -/
+/-- the quoted forward references of the modules `ResultTypesGenerator` produces (operation modules, `fragments.py`) name
+    classes of the module: false exactly inside the finding region `forwardRefDangling` (F25); proved to hold inside
+    `PackageValid.leafNamesOK` (`forward_refs_resolve`).  The driver reports it for the evidence. -/
+def openPart (m : ModuleIR) : Bool :=
+  !(m.kind == .result || m.kind == .fragments) || forwardRefsOK m
+
+/-- `Proved_04` as a Bool (evaluated by the driver on every case): when the model's own run on this input ends in an
+    exception, it is a documented refusal.  This is the ONE open obligation: totality of the result-type and fragments
+    generator models under validity (the two named hypotheses of `generate_total_partial`).  For a run that ends in a
+    package nothing is left open. -/
 def provedB (cfg : Config) (inp : Input) : Bool :=
   match (modelRun cfg inp).outcome with
-  | .ok p => p.modules.all fun m => !generated m || residualParts p m
+  | .ok _ => true
   | .error e => documentedRefusal e
 
 /-- `file:part` for every violated part (what the driver reports) -/
